@@ -19,6 +19,12 @@ func runE2Once(t *testing.T) (hash []byte, tNew, tBlock time.Duration) {
 	if len(e.Vals) != 3 || e.NumUsers() != 3 {
 		t.Fatal("accounts")
 	}
+	// a transaction in the very first block (account numbers known from genesis)
+	c := e.User(2)
+	r0, err := e.RunAs(c, banktypes.NewMsgSend(c.Addr, e.User(0).Addr, sdk.NewCoins(sdk.NewInt64Coin(BondDenom, 1))))
+	if err != nil || r0.Code != 0 || c.Num != uint64(e.nVals+2) {
+		t.Fatalf("tx in block 1: %v %v num=%d", r0, err, c.Num)
+	}
 	t1 := time.Now()
 	for i := 0; i < 3; i++ {
 		res, err := e.DeliverBlock(nil)
@@ -49,7 +55,7 @@ func runE2Once(t *testing.T) (hash []byte, tNew, tBlock time.Duration) {
 	if got := e.Balance(b.Addr, BondDenom).Sub(before).Int64(); got != 12345 {
 		t.Fatalf("balance moved by %d", got)
 	}
-	if a.Seq != 1 || e.Height != 4 {
+	if a.Seq != 1 || e.Height != 5 {
 		t.Fatalf("seq %d height %d", a.Seq, e.Height)
 	}
 	// a tx failing in ante (wrong sequence) does not consume the sequence
